@@ -133,6 +133,17 @@ func (x *exec) intBin(op token.Token, a, b *Term, typ, ytyp types.Type, s *State
 	e := x.e
 	c := e.C
 	bits, signed := typeBits(typ)
+	if e.specMath > 0 && signed && bits == 64 {
+		// specification arithmetic on int/int64 is mathematical (unbounded)
+		switch op {
+		case token.ADD:
+			return c.Add(a, b)
+		case token.SUB:
+			return c.Sub(a, b)
+		case token.MUL:
+			return c.Mul(a, b)
+		}
+	}
 	switch op {
 	case token.ADD:
 		return e.wrap1(c.Add(a, b), typ)
